@@ -272,6 +272,7 @@ static void parse_set (const char *spec, int *out, int *n, int limit, int (*look
 }
 
 /* representatives of each frame class for the depth-3 pass */
+#define MINI "call,call_other,lfunp,catch,filter_fp,sort_fp,create_clone,m_object_name"
 #define CORE "call,inherited,call_other,lfunp,functional,efunp,boundfp,simul_efun,catch,filter_fp,sort_fp,map_mapping,create_load,create_clone,init_move,move_or_destruct,verb_string,m_valid_read,m_object_name"
 
 int main (int argc, char **argv) {
@@ -283,6 +284,7 @@ int main (int argc, char **argv) {
   vm_selftest = (int) vx_opt_long ("selftest", 0);
   const char *ks = vx_opt ("kinds", "all");
   if (!strcmp (ks, "core")) ks = CORE;
+  if (!strcmp (ks, "mini")) ks = MINI;
   parse_set (ks, kindset, &nkindset, vm_nkinds, vm_kind_index);
   const char *part = vx_opt ("part", "inject");
   part_sites = !strcmp (part, "sites");
@@ -293,7 +295,7 @@ int main (int argc, char **argv) {
 
 #ifdef VM_C06
   if (!strcmp (part, "share")) {
-    hx_boot (mud, "MaxEvaluationCost 100000000\nMaxArraySize 70000\nMaxMappingSize 70000\nMaxCallDepth 100\n", 0);
+    hx_boot (mud, "MaxEvaluationCost 100000000\nMaxArraySize 60000\nMaxMappingSize 70000\nMaxCallDepth 100\n", 0);
     vm_preload_helpers ();
     return c06_share_main (argc, argv);
   }
